@@ -904,7 +904,7 @@ namespace glm {
 		data = _mm256_set_pd(v[2], v[2], v[1], v[0]);
 #else
 		data.setv(0, _mm_loadu_pd(reinterpret_cast<const double*>(&v)));
-		data.setv(1, _mm_loadu_pd(reinterpret_cast<const double*>(&v)+2));
+		data.setv(1, _mm_load_sd(reinterpret_cast<const double*>(&v)+2));
 #endif
 	}
 
